@@ -126,7 +126,7 @@ class Ctx:
                 "-Dtlc2.tool.queue.IStateQueue=StateDeque" if workers == 1 else "-Dverif.dummy=1",
                 f"-DTLA-Library={SPEC}:{SPEC/'trace'}:{SPEC/'gen'}:{SPEC/'mc'}",
                 "-cp", JARS, "tlc2.TLC", "-workers", str(workers), "-metadir", str(metadir),
-                "-noGenerateSpecTE", "-cleanup", "-config", str(cfg_path)] + extra + [str(module_path)]
+                "-noGenerateSpecTE", "-cleanup", "-maxSetSize", "20000000", "-config", str(cfg_path)] + extra + [str(module_path)]
 
     def tlc_raw(self, module, cfg=None, workers=1, env=None, timeout=1800, extra=None, xmx="4g", tag=None):
         """Run TLC on spec/**/<module>.tla; returns (returncode, stdout)."""
@@ -229,6 +229,11 @@ class Ctx:
             return dict(ok=False, at=int(m.group(1)), states=st, transitions=tr, notes=notes,
                         out=out[-3000:], idx=idx)
         # evaluation error while processing an event: locate it through the last state printed
+        # resource / representation limits of TLC are tool errors, never verdicts about the code
+        for pat in ("too many elements", "overflow", "OutOfMemory", "StackOverflow", "heap space", "deserialize", "Json", "NumberFormat",
+                    "too large", "GC overhead"):
+            if pat in out:
+                raise ToolError(f"TLC hit a resource/representation limit while validating ({module}): {pat}\n" + out[-2500:])
         m = re.findall(r"\bl = (\d+)", out)
         if m and ("Error:" in out or "error" in out.lower()):
             return dict(ok=False, at=int(m[-1]), states=st, transitions=tr, notes=notes,
